@@ -70,8 +70,10 @@ def cases(tier: str) -> list[dict[str, Any]]:
             for pi, prof in enumerate(profiles):
                 if not th and (gi + pi) % 2 == 1 and an not in ("dir", "explicit", "glob-rec", "mixed"):
                     continue
+                # a path-style directory pattern is relative to the walk root; it is only given where every walk starts at the tree root
+                prof = dict(prof, path_excl=bool(prof["exclude_given"]) and an in ("dir", "dir-abs", "dir+explicit"))
                 cs.append(dict(key=f"resolve/{an}/g{gi}/p{pi}", kind="resolve", args=args, argset=an, symbolic_entries=grp, profile=prof, cost=len(args)))
-    cs.append(dict(key="twin/resolve", kind="resolve", args=["."], argset="dir", symbolic_entries=["a", "c"], profile=profiles[0], twin=True))
+    cs.append(dict(key="twin/resolve", kind="resolve", args=["."], argset="dir", symbolic_entries=["a", "c"], profile=dict(profiles[0], path_excl=False), twin=True))
     return cs
 
 
@@ -114,6 +116,7 @@ def run(env: Any, case: dict[str, Any]) -> Any:
     has_ignore = bool(env.bool("has_flowmarkignore"))
     own_exclude = prof["exclude_given"]   # `exclude` given explicitly (here: the one default this tree uses) - extend_exclude must still apply
     reverse = prof["reverse"]
+    path_excl = prof.get("path_excl", False)   # extend_exclude also holds the path-style pattern sub/deep/
     limit = env.int("files_max_size", lo=0)
     sizes = {sv: env.int(sv, lo=0, hi=4000) for _n, _k, _r, _t, sv in ENTRIES if sv}
     base = Path(tempfile.mkdtemp(prefix="c17_")).resolve()
@@ -168,7 +171,7 @@ def run(env: Any, case: dict[str, Any]) -> Any:
         R.os.walk = walk
 
         def resolve(args: list[str]) -> Any:
-            cfg = FileResolverConfig(extend_include=["*.txt"] if ext_inc else [], exclude=["node_modules/"] if own_exclude else None, extend_exclude=["drafts/"] if ext_exc else [],
+            cfg = FileResolverConfig(extend_include=["*.txt"] if ext_inc else [], exclude=["node_modules/"] if own_exclude else None, extend_exclude=(["drafts/"] if ext_exc else []) + (["sub/deep/"] if path_excl else []),
                                      force_exclude=force_exclude, files_max_size=limit)
             return FileResolver(cfg).resolve([str(root) if a == "@root" else a for a in args])
 
@@ -230,6 +233,8 @@ def run(env: Any, case: dict[str, Any]) -> Any:
                 continue
             if has_ignore and inner[-1] == "ignored.md":
                 continue
+            if path_excl and start_rel == "." and parts[:2] == ("sub", "deep"):
+                continue
             want(str(root / rel), _not(too_big(sv)))
 
     def glob_rels(pattern: str) -> set[str]:
@@ -284,7 +289,7 @@ def run(env: Any, case: dict[str, Any]) -> Any:
             pass
 
     got_s = [str(p) for p in got]
-    state = {"args": args, "tree": tree_listing, "got": [s.replace(str(base), "") for s in got_s], "settings": dict(force_exclude=force_exclude, ext_inc=ext_inc, ext_exc=ext_exc, ignore=has_ignore, reverse=reverse)}
+    state = {"args": args, "tree": tree_listing, "got": [s.replace(str(base), "") for s in got_s], "settings": dict(force_exclude=force_exclude, ext_inc=ext_inc, ext_exc=ext_exc, path_excl=path_excl, ignore=has_ignore, reverse=reverse)}
     env.prove(all(os.path.isabs(s) for s in got_s), label + ":absolute", state)
     env.prove(got_s == sorted(got_s) and len(set(got_s)) == len(got_s), label + ":sorted-unique", state)
     env.prove([str(p) for p in got_rev] == got_s, label + ":argument-order", state)
@@ -307,7 +312,7 @@ def _why(short: str) -> str:
         return "[outside-via-link]"
     if "node_modules" in short:
         return "[default-excluded-dir]"
-    if "drafts" in short:
+    if "drafts" in short or "/deep/" in short:
         return "[user-excluded-dir]"
     if "ignored.md" in short:
         return "[flowmarkignore]"
